@@ -126,7 +126,58 @@ func (p *Program) writeNativeOverlay(dir string, onlyRel string) (string, error)
 }
 
 // runNative executes all cases of one package in one go test process.
+// runNative runs the cases in one go test process; if that process dies (a
+// fatal stack overflow or a hang cannot be recovered in-process) the cases
+// without a verdict are re-run one per process, with a time limit each.
 func (p *Program) runNative(rel string, cases []replayCase, scratch string) ([]replayOutcome, string, error) {
+	outs, raw, err := p.runNativeOnce(rel, cases, scratch, "5m")
+	if err != nil {
+		return outs, raw, err
+	}
+	missing := 0
+	for _, o := range outs {
+		if o.Result == "error" {
+			missing++
+		}
+	}
+	if missing == 0 || len(cases) == 1 {
+		for i := range outs {
+			if outs[i].Result == "error" && len(cases) == 1 {
+				outs[i] = classifyDeath(raw)
+			}
+		}
+		return outs, raw, nil
+	}
+	for i := range cases {
+		if outs[i].Result != "error" {
+			continue
+		}
+		o1, raw1, err1 := p.runNativeOnce(rel, cases[i:i+1], scratch, "60s")
+		if err1 != nil {
+			continue
+		}
+		if o1[0].Result == "error" {
+			o1[0] = classifyDeath(raw1)
+		}
+		outs[i] = o1[0]
+	}
+	return outs, raw, nil
+}
+
+// classifyDeath turns the output of a go test process that produced no verdict into one.
+func classifyDeath(raw string) replayOutcome {
+	switch {
+	case strings.Contains(raw, "stack overflow") || strings.Contains(raw, "goroutine stack exceeds"):
+		return replayOutcome{Result: "panic", Msg: "fatal: stack overflow (process died)"}
+	case strings.Contains(raw, "test timed out") || strings.Contains(raw, "panic: test timed out"):
+		return replayOutcome{Result: "panic", Msg: "hang: test timed out"}
+	case strings.Contains(raw, "fatal error:") || strings.Contains(raw, "panic:"):
+		return replayOutcome{Result: "panic", Msg: "process died: " + firstLine(raw[strings.Index(raw, "a")+0:])}
+	}
+	return replayOutcome{Result: "error"}
+}
+
+func (p *Program) runNativeOnce(rel string, cases []replayCase, scratch string, timeout string) ([]replayOutcome, string, error) {
 	ov, err := p.writeNativeOverlay(filepath.Join(scratch, "ov-"+strings.ReplaceAll(rel, "/", "_")), rel)
 	if err != nil {
 		return nil, "", err
@@ -136,7 +187,7 @@ func (p *Program) runNative(rel string, cases []replayCase, scratch string) ([]r
 	if err := os.WriteFile(cf, b, 0o644); err != nil {
 		return nil, "", err
 	}
-	cmd := exec.Command("go", "test", "-v", "-vet=off", "-count=1", "-overlay", ov, "-run", "^TestVPReplay$", "-timeout", "20m", "./"+rel)
+	cmd := exec.Command("go", "test", "-v", "-vet=off", "-count=1", "-overlay", ov, "-run", "^TestVPReplay$", "-timeout", timeout, "./"+rel)
 	cmd.Dir = p.repoDir
 	cmd.Env = append(os.Environ(), "GOFLAGS=-mod=mod", "GOPROXY=off", "GOSUMDB=off", "GOTOOLCHAIN=local", "VP_REPLAY="+cf)
 	out, _ := cmd.CombinedOutput()
